@@ -362,7 +362,7 @@ func (g *cgen) members() (int64, *jnode, int64, string) {
 		case 1:
 			o.set("properties", jg.anyValue(2))
 		default:
-			o.set([]string{"name", "bbox", "x y", "Type"}[g.rng.Intn(4)], jg.anyValue(2))
+			o.set([]string{"name", "bbox", "x y", "Type", "feature", "feature"}[g.rng.Intn(6)], jg.anyValue(2))
 		}
 	}
 	return 1, o, int64(g.rng.Intn(2)) * (1 + g.rng.Int63n(1<<30)), ""
